@@ -967,7 +967,10 @@ func (st *Stack) Clean() error {
 
 		rd, err := NewReader(bs, name)
 		if err != nil {
-			return fmt.Errorf("NewReader(%s): %v", name, err)
+			// Not a table (of ours): leave it alone, and go on with
+			// the other files.
+			bs.Close()
+			continue
 		}
 
 		cur := rd.MaxUpdateIndex()
